@@ -11,6 +11,7 @@
 #include <map>
 #include <set>
 #include <sstream>
+#include <stdexcept>
 #include <string>
 #include <vector>
 
@@ -68,6 +69,12 @@ struct Ledger {
     uint64_t next_serial = 1;
     uint64_t constructed = 0, destroyed = 0;
     bool log_events = false;
+    long long throw_countdown = -1;          // k > 0: the k-th Tracked construction from now throws
+    // called at the very start of every Tracked constructor (before any resource is acquired)
+    int maybe_throw() {
+        if (throw_countdown > 0 && --throw_countdown == 0) { throw_countdown = -1; throw std::runtime_error("Tracked: construction failed"); }
+        return 0;
+    }
     static Ledger& get() { static Ledger l; return l; }
     void reset() { alive.clear(); events.clear(); errors.clear(); constructed = destroyed = 0; }
 };
@@ -77,9 +84,9 @@ struct Ledger {
 struct Tracked {
     long long val;
     long long* heap;
-    Tracked() : val(0), heap(new long long(0)) { born(); }
-    explicit Tracked(long long v) : val(v), heap(new long long(v)) { born(); }
-    Tracked(const Tracked& o) : val(o.val), heap(new long long(o.val)) { o.check("copy-from"); born(); }
+    Tracked() : val(Ledger::get().maybe_throw()), heap(new long long(0)) { born(); }
+    explicit Tracked(long long v) : val(v + Ledger::get().maybe_throw()), heap(new long long(v)) { born(); }
+    Tracked(const Tracked& o) : val(o.val + Ledger::get().maybe_throw()), heap(new long long(o.val)) { o.check("copy-from"); born(); }
     Tracked(Tracked&& o) noexcept : val(o.val), heap(new long long(o.val)) { o.check("move-from"); born(); }
     Tracked& operator=(const Tracked& o) { o.check("assign-from"); check("assign-to"); val = o.val; *heap = o.val; return *this; }
     Tracked& operator=(Tracked&& o) noexcept { o.check("massign-from"); check("massign-to"); val = o.val; *heap = o.val; return *this; }
